@@ -10,7 +10,7 @@ VM_CROSSCHECK = True
 N = {"quick": 1800, "thorough": 60000}
 LEVEL_RULE = ("content cases: sequence + sequence (or simultaneity as right operand), and concatenation of two simultaneities of "
               "sequences by index / by tag (0-3 voices each, tags unique / repeated / missing, nested simultaneities as voices, "
-              "leaf voices as malformed stream), all tempi default; tempo cases: two one-voice operands whose tempi are constant "
+              "leaf voices as malformed stream), all tempi default; history stream (15 % of the content cases): 2-4 joins on ONE simultaneity with tagged voices replaced / removed in between, compared step by step; tempo cases: two one-voice operands whose tempi are constant "
               "or 2-4 point trajectories shorter / equal / longer than the event, joined by +, by index and by tag; the result's "
               "tempo is compared with the model and, on a 26-point grid, with the operands' tempi. "
               "non-trivial = voice counts differ or a trajectory length differs from the event length")
@@ -62,6 +62,8 @@ def gen(seed, index):
         a = ["S", rng.choice([0, 1]), 0] + [G.tree(depth=rng.choice([0, 0, 1, 2])) for _ in range(rng.randint(0, 3))]
         b = [rng.choice("SSP"), rng.choice([0, 2]), 0] + [G.tree(depth=rng.choice([0, 0, 1])) for _ in range(rng.randint(0, 3))]
         return ["op", a, ["add", b]]
+    if rng.random() < 0.15:
+        return gen_history(rng, G)
     by_tag = rng.random() < 0.5
     tags = [1, 2, 3] if by_tag else [0, 0, 1, 2]
     if by_tag and rng.random() < 0.12:
@@ -71,7 +73,56 @@ def gen(seed, index):
     return ["op", a, ["concat", 1 if by_tag else 0, b]]
 
 
+def gen_history(rng, G):
+    """history stream: join, replace / remove / re-add tagged voices on the same simultaneity, join again (2-4 joins)"""
+    def voices(tags):
+        return [["S", tg, 0] + [G.leaf() for _ in range(rng.randint(0, 3))] for tg in tags]
+
+    alltags = [1, 2, 3]
+    have = rng.sample(alltags, rng.randint(1, 3))
+    a = ["P", 0, 0] + voices(have)
+    ops = []
+    for _ in range(rng.randint(2, 4)):
+        by_tag = rng.random() < 0.75
+        tb = rng.sample(alltags, rng.randint(1, 3))
+        ops.append(["concat", 1 if by_tag else 0, ["P", 0, 0] + voices(tb)])
+        have = have + [tg for tg in tb if tg not in have] if by_tag else have + tb[len(have):]
+        r = rng.random()
+        tg = rng.choice(have)
+        if r < 0.6:
+            ops.append(["set_tag", tg, voices([tg])[0]])
+        elif r < 0.75 and len(set(have)) == len(have):
+            ops.append(["del_tag", tg])
+            have = [x for x in have if x != tg]
+    return ["hist", a] + ops
+
+
+def compare_history(case, mo, io):
+    if len(mo) != len(io):
+        return f"history length differs: model {len(mo) - 1} impl {len(io) - 1} steps"
+    for k, (a, b) in enumerate(zip(mo[1:], io[1:])):
+        d = compare_result(a, b)
+        if d:
+            return f"after step {k} {sx.show(case[2 + k])[:80]}: {d}"
+    return None
+
+
+def oracle_history(case, io):
+    prev = case[1]
+    for k, (op, r) in enumerate(zip(case[2:], io[1:])):
+        if is_err(r):
+            return f"step {k} {op[0]} raised {r[1]} on valid operands"
+        if op[0] == "concat":
+            m = oracle(["op", prev, op], ["ok", r[1], ["other", op[-1]]], None)
+            if m:
+                return f"step {k} (state left by the earlier calls: {sx.show(prev)[:160]}): {m}"
+        prev = r[1]
+    return None
+
+
 def compare(case, mo, io):
+    if case[0] == "hist":
+        return compare_history(case, mo, io)
     if case[0] == "jointempo":
         if is_err(mo) or is_err(io):
             return None if mo[:2] == io[:2] else f"outcome differs: model {sx.show(mo[:2])} impl {sx.show(io[:2])}"
@@ -88,6 +139,8 @@ def voice_key(v, by_tag, j):
 
 
 def oracle(case, io, mo):
+    if case[0] == "hist":
+        return oracle_history(case, io)
     if case[0] == "jointempo":
         if is_err(io):
             return f"joining raised {io[1]}"
@@ -207,6 +260,8 @@ def nontrivial(case, io):
         da = int(case[3])
         ta = case[2]
         return ta[0] == "T" and sum(int(p[0]) for p in ta[1:]) != da
+    if case[0] == "hist":
+        return sum(1 for o in case[2:] if o[0] == "concat") >= 2 and io is not None and not any(is_err(x) for x in io[1:])
     op = case[2]
     if op[0] == "add":
         return len(case[1]) > 3 and len(op[1]) > 3
@@ -218,8 +273,11 @@ def stats(results):
     c = Counter()
     for r in results:
         case = r["case"]
-        k = case[0] + (":" + case[1] if case[0] == "jointempo" else ":" + case[2][0])
         io = r.get("io")
+        if case[0] == "hist":
+            c["history:joins=%d" % sum(1 for o in case[2:] if o[0] == "concat")] += 1
+            continue
+        k = case[0] + (":" + case[1] if case[0] == "jointempo" else ":" + case[2][0])
         c[k + (":err:" + io[1] if io and is_err(io) else ":ok")] += 1
     return dict(sorted(c.items()))
 
